@@ -102,6 +102,16 @@ def enumerate_cases(tier, seed):
                           ("QDepthwiseConv2D", "weight", "quantized_bits"), ("QDense", "activation", "quantized_tanh")):
     out.append(dict(layer=layer, slot=slot, qcls=qc, opts={}, deep="all" if tier == "thorough" else "two", user_layer=True,
                     _seed=seed))
+  # quantizer OBJECTS with a past: the object was already applied to data before it was handed to the layer (a scale has
+  # been recorded on it); and a folded layer built without a bias quantizer that received one from
+  # populate_bias_quantizer_from_accumulator.  The round trip starts from what the model does NOW.
+  for layer, slot, qc in (("QDense", "weight", "quantized_bits"), ("QConv2D", "weight", "quantized_bits"),
+                          ("QDense", "weight", "binary"), ("QDense", "weight", "ternary"), ("QDense", "weight", "quantized_linear"),
+                          ("QDense", "weight", "quantized_po2"), ("QActivation", "activation", "quantized_relu")):
+    out.append(dict(layer=layer, slot=slot, qcls=qc, opts={}, deep="two", pre_called=True, _seed=seed))
+  for layer in ("QConv2DBatchnorm", "QDepthwiseConv2DBatchnorm"):
+    out.append(dict(layer=layer, slot="weight", qcls="quantized_bits", opts={"bits": 6, "integer": 1, "alpha": 1.0}, deep="two",
+                    populate=True, _seed=seed))
   return out
 
 
@@ -133,6 +143,8 @@ def build(case, default=False):
   from qkeras import quantizers as Q  # pylint: disable=import-outside-toplevel
   L = tf.keras.layers
   q = getattr(Q, case["qcls"])(**({} if default else case["opts"]))
+  if case.get("pre_called"):
+    q(tf.constant(common.tensor((4, 3), "grid7", case["_seed"])))
   base_w = "quantized_bits(4,0,1)"
   layer, slot = case["layer"], case["slot"]
   wq = q if slot == "weight" else base_w
@@ -170,9 +182,11 @@ def build(case, default=False):
       kw = dict(kw, center=False, scale=False)
     lyr = qkeras.QBatchNormalization(gamma_quantizer=wq, beta_quantizer=base_w, **kw)
   elif layer == "QConv2DBatchnorm":
-    lyr = qkeras.QConv2DBatchnorm(2, 2, kernel_quantizer=wq, bias_quantizer=base_w, activation=act, **kw)
+    lyr = qkeras.QConv2DBatchnorm(2, 2, kernel_quantizer=wq, bias_quantizer=None if case.get("populate") else base_w,
+                                  activation=act, **kw)
   elif layer == "QDepthwiseConv2DBatchnorm":
-    lyr = qkeras.QDepthwiseConv2DBatchnorm(2, depthwise_quantizer=wq, bias_quantizer=base_w, activation=act, **kw)
+    lyr = qkeras.QDepthwiseConv2DBatchnorm(2, depthwise_quantizer=wq, bias_quantizer=None if case.get("populate") else base_w,
+                                           activation=act, **kw)
   elif layer == "QAveragePooling2D":
     lyr = qkeras.QAveragePooling2D(2, average_quantizer=wq if slot == "weight" else "quantized_bits(8,0,1,alpha=1)",
                                    activation=act, **kw)
@@ -195,6 +209,9 @@ def build(case, default=False):
     if ws:
       new = []
       for j, w in enumerate(ws):
+        if w.ndim == 0:          # the iteration counter of the folded layers
+          new.append(w)
+          continue
         v = common.tensor(w.shape, "grid7", i + j + case["_seed"]) * np.float32(0.7)
         if "variance" in l.weights[j].name:
           v = np.abs(v) + np.float32(0.3)
@@ -202,6 +219,9 @@ def build(case, default=False):
           v = v + np.float32(0.05 * (j + 1))
         new.append(v.astype(np.float32))
       l.set_weights(new)
+  if case.get("populate"):
+    from qkeras import bn_folding_utils  # pylint: disable=import-outside-toplevel
+    model = bn_folding_utils.populate_bias_quantizer_from_accumulator(model, [Q.quantized_bits(4, 1, 1)])
   return model, (2,) + shape
 
 
@@ -244,7 +264,8 @@ def run_case(case):
   viol = []
 
   def bad(clause, what, **d):
-    key = "%s:%s%s" % (clause, case["qcls"], ":user-layer" if case.get("user_layer") else "")
+    key = "%s:%s%s" % (clause, case["qcls"], ":user-layer" if case.get("user_layer") else (
+        ":used-before" if case.get("pre_called") else (":populated-bias" if case.get("populate") else "")))
     if len(viol) < 6 and not any(v["key"] == key for v in viol):
       viol.append({"key": key, "what": what, "detail": dict(case=case, **d)})
   try:
